@@ -1191,6 +1191,208 @@ async def c04_ident(w):
             "expected": "the function equals the statement's qualifying predicate"}
 
 
+# ---------------------------------------------------------------------------------------------------------
+# C05: timed histories on a virtual clock, both subsystems, against the statement's automaton
+# ---------------------------------------------------------------------------------------------------------
+def install_virtual_time(loop, t0=1000.0):
+    """Virtual clock on the running loop: whenever the loop would sleep, time jumps to the next deadline instead."""
+    vt = [t0]
+    loop.time = lambda: vt[0]
+    sel = loop._selector
+    orig = sel.select
+
+    def select(timeout=None):
+        ev = orig(0)
+        if ev or timeout is None or timeout <= 0:
+            return ev if (ev or timeout is not None) else orig(0.01)
+        vt[0] += timeout
+        return []
+    sel.select = select
+    return vt
+
+
+def c05_reference(cfg, initial_truth, history):
+    """The statement's automaton (DESIGN 4/C05).  history: [(t, kind, label)], kind in {'true','false','attr'}.
+    Returns the runs [(t, label)] with label None for the definition-time check."""
+    S, H, check_now = cfg["S"], cfg["H"], bool(cfg["check_now"])
+    runs, pend, fsince = [], None, None
+
+    def fire_due(until):
+        nonlocal pend
+        if pend is not None and pend[0] + S <= until:
+            runs.append((pend[0] + S, pend[1]))
+            pend = None
+
+    def qualify(t, label):
+        nonlocal pend
+        if S is None:
+            runs.append((t, label))
+        elif pend is None:
+            pend = (t, label)
+    if check_now or H is not None:
+        if H is not None:
+            fsince = None if initial_truth else 0.0
+        if check_now and initial_truth:
+            qualify(0.0, None)
+    for (t, kind, label) in history:
+        if S is not None:
+            fire_due(t)
+        if kind == "attr":
+            continue
+        truth = kind == "true"
+        if H is None:
+            q = truth
+        elif truth:
+            q = fsince is not None and t - fsince >= H
+            fsince = None
+        else:
+            q = False
+            fsince = fsince if fsince is not None else t
+        if q:
+            qualify(t, label)
+        if not truth:
+            pend = None
+    if S is not None:
+        fire_due(float("inf"))
+    return runs
+
+
+async def c05_env(legacy):
+    from types import SimpleNamespace as NS
+    from custom_components.pyscript import trigger as T
+    import datetime as dtm
+    loop = asyncio.get_running_loop()
+    hass = await boot_full(legacy=legacy)
+    table = fake_states(hass)
+    vt = getattr(loop, "_c05_vt", None) or install_virtual_time(loop)
+    loop._c05_vt = vt
+    base = dtm.datetime(2024, 1, 1, 12, 0, 0)
+    T.time = NS(monotonic=lambda: vt[0])
+    T.dt_now = lambda: base + dtm.timedelta(seconds=vt[0] - 1000.0)
+    return NS(hass=hass, table=table, vt=vt, n=0)
+
+
+async def c05_run_history(env, cfg, initial_truth, history, horizon):
+    """Drive the REAL subsystem through the timed history; returns the observed runs [(t, label)]."""
+    from types import SimpleNamespace as NS
+    from custom_components.pyscript.state import State, StateVal
+    from custom_components.pyscript.global_ctx import GlobalContext, GlobalContextMgr
+    vt, table = env.vt, env.table
+    t0 = vt[0]
+    runs = []
+    table["pyscript.v"] = (str(10 if initial_truth else -10), {"a": "0"})
+    State.notify_var_last.clear()  # each history starts from a fresh state table (as a fresh process would)
+    kw = []
+    for k, name in (("S", "state_hold"), ("H", "state_hold_false")):
+        if cfg[k] is not None:
+            kw.append(f"{name}={cfg[k]!r}")
+    if cfg["check_now"] is not None:
+        kw.append(f"state_check_now={cfg['check_now']!r}")
+    src = f'@state_trigger("int(pyscript.v) > 0"{"".join(", " + k for k in kw)})\ndef f(**kw):\n    record(kw)\n'
+    env.n += 1
+    name = f"file.c05_{env.n}"
+    gctx = GlobalContext(name, global_sym_table={"__name__": name, "record": lambda kw_: runs.append((round(vt[0] - t0, 6), kw_.get("value")))},
+                         manager=GlobalContextMgr)
+    GlobalContextMgr.set(name, gctx)
+    gctx.set_auto_start(True)
+    _, _, exc = await run_source(name, src, global_ctx=gctx)
+    await settle(30)
+
+    def sv(val, attr):
+        return StateVal(NS(state=val, attributes={"a": attr}, entity_id="pyscript.v", last_updated="u", last_changed="c", last_reported="r"))
+    attr_n = 0
+    for (t, kind, label) in history:
+        await asyncio.sleep(max(0.0, t - (vt[0] - t0)))
+        old_s, old_a = table["pyscript.v"]
+        if kind == "attr":
+            attr_n += 1
+            new_s, new_a = old_s, {"a": str(attr_n)}
+        else:
+            mag = abs(int(old_s)) + 1
+            new_s, new_a = str(mag if kind == "true" else -mag), dict(old_a)
+        table["pyscript.v"] = (new_s, new_a)
+        new_val, old_val = sv(new_s, new_a["a"]), sv(old_s, old_a["a"])
+        new_val.label = label
+        await State.update({"pyscript.v": new_val, "pyscript.v.old": old_val},
+                           {"trigger_type": "state", "var_name": "pyscript.v", "value": new_val, "old_value": old_val, "context": None})
+        await settle(30)
+    await asyncio.sleep(max(0.0, horizon - (vt[0] - t0)))
+    await settle(30)
+    gctx.stop()
+    GlobalContextMgr.delete(name)
+    await settle(10)
+    out = [(t, getattr(v, "label", None)) for (t, v) in runs]
+    return out, exc
+
+
+C05_WITNESS_HISTORIES = {
+    # what -> (cfg, initial truth, history)
+    "pending-hold-changed": ({"S": 10.0, "H": None, "check_now": None}, False, [(1.0, "true", "e1"), (3.0, "attr", "e2")]),
+    "args-overwritten": ({"S": 10.0, "H": None, "check_now": None}, False, [(1.0, "true", "e1"), (3.0, "true", "e2")]),
+    "false-timer-changed": ({"S": None, "H": 5.0, "check_now": None}, True, [(1.0, "attr", "e1"), (10.0, "true", "e2")]),
+    "no-run-at-start": ({"S": None, "H": 5.0, "check_now": True}, True, []),
+    "no-hold-at-start": ({"S": 10.0, "H": 5.0, "check_now": True}, True, []),
+}
+
+
+async def c05_holds(w):
+    """A timed history chosen for the failed obligation, run on the real subsystem (virtual clock) and compared with the
+    statement's automaton."""
+    what = w.get("what")
+    if what not in C05_WITNESS_HISTORIES:
+        # no hand-picked history for this obligation: search the grid of timed histories (<= 3 events) on the real
+        # subsystem for one that disagrees with the automaton, and report it as the failing input
+        out = await c05_histories_bounded({"subsystem": w.get("subsystem"), "depth": 3})
+        f = out["failures"][:1]
+        return {"reproduced": bool(f), "observed": f[0] if f else {"searched": out["bound"], "cases": out["cases"]},
+                "expected": "runs equal to the statement's automaton", "found_by": "grid search around the failed step obligation"}
+    cfg, init, hist = C05_WITNESS_HISTORIES[what]
+    legacy = w.get("subsystem") == "legacy"
+    want = c05_reference(cfg, init, hist)
+    env = await c05_env(legacy)
+    got, exc = await c05_run_history(env, cfg, init, hist, horizon=40.0)
+    await shutdown()
+    return {"reproduced": got != want, "observed": {"subsystem": w.get("subsystem"), "config": cfg, "initially_true": init, "history": hist, "runs": got, "error": repr(exc) if exc else None},
+            "expected": {"runs": want}}
+
+
+def c05_grid(depth):
+    import itertools
+    cfgs = [{"S": S, "H": H, "check_now": c} for S in (None, 0, 4.0) for H in (None, 0, 4.0) for c in (None, False, True)]
+    steps = [(g, k) for g in (1.0, 6.0) for k in ("true", "false", "attr")]
+    hists = []
+    for n in range(depth + 1):
+        for combo in itertools.product(steps, repeat=n):
+            t, h = 0.5, []   # offset: no event coincides with a deadline counted from the definition-time check
+            for i, (g, k) in enumerate(combo):
+                t += g
+                h.append((t, k, f"e{i + 1}"))
+            hists.append(h)
+    return [(c, init, h) for c in cfgs for init in (False, True) for h in hists]
+
+
+async def c05_histories_bounded(w):
+    """Bounded stand-in for whole histories (the step proofs are per iteration): every configuration x initial truth x
+    timed history up to `depth` <= 4 events on the grid (first event at 1.5 s or 6.5 s, gaps 1 s / 6 s, holds of 0 / 4 s: no ties), on the real
+    subsystem with a virtual clock, against the statement's automaton."""
+    legacy = w["subsystem"] == "legacy"
+    depth, shard, nshards = int(w.get("depth", 2)), int(w.get("shard", 0)), int(w.get("nshards", 1))
+    env = await c05_env(legacy)
+    cases = [c for i, c in enumerate(c05_grid(depth)) if i % nshards == shard]
+    failures = []
+    for cfg, init, hist in cases:
+        want = c05_reference(cfg, init, hist)
+        got, exc = await c05_run_history(env, cfg, init, hist, horizon=(hist[-1][0] if hist else 0.0) + 10.0)
+        if [list(x) for x in got] != [list(x) for x in want] or exc is not None:
+            if len(failures) < 3:
+                failures.append({"signature": f"{w['subsystem']}:{cfg}:{init}:{hist}", "subsystem": w["subsystem"], "config": cfg, "initially_true": init,
+                                 "history": hist, "observed_runs": got, "expected_runs": want, "error": repr(exc) if exc else None})
+    await shutdown()
+    return {"unit": f"whole timed histories, {w['subsystem']} subsystem", "method": "real subsystem on a virtual clock vs the statement's automaton",
+            "bound": f"<= {depth} events per history, gaps in {{1,6}} s, holds in {{None,0,4}} s, shard {shard + 1}/{nshards}", "cases": len(cases),
+            "failures": failures, "reproduced": bool(failures)}
+
+
 SCENARIOS = {k: v for k, v in list(globals().items()) if asyncio.iscoroutinefunction(v) and k[0] == "c"}
 
 if __name__ == "__main__":
